@@ -1,5 +1,4 @@
 from copy import deepcopy
-from csv import reader
 from json import loads
 from lxml import etree
 from xmldiff import actions
@@ -119,12 +118,38 @@ class DiffParser:
         line = line[1:-1]
         # Split the line on commas (ignoring commas in quoted strings) and
         # strip extraneous spaces. The first is the action, the rest params.
-        parts = [x.strip() for x in next(reader([line]))]
+        parts = [x.strip() for x in self._split(line)]
         action = parts[0]
         params = parts[1:]
         # Get the method, and return the result of calling it
         method = getattr(self, "_handle_" + action.replace("-", "_"))
         return method(*params)
+
+    def _split(self, line):
+        # The values are JSON encoded, so commas inside JSON strings do
+        # not separate parameters.
+        parts = []
+        part = ""
+        in_string = False
+        escaped = False
+        for char in line:
+            if in_string:
+                part += char
+                if escaped:
+                    escaped = False
+                elif char == "\\":
+                    escaped = True
+                elif char == '"':
+                    in_string = False
+            elif char == ",":
+                parts.append(part)
+                part = ""
+            else:
+                part += char
+                if char == '"':
+                    in_string = True
+        parts.append(part)
+        return parts
 
     def _handle_delete(self, node):
         return actions.DeleteNode(node)
